@@ -7,6 +7,7 @@ import (
 	"go/token"
 	"go/types"
 	"math/big"
+	"sort"
 	"strings"
 
 	"verif/checker/core"
@@ -664,4 +665,236 @@ func c16r4(rc *core.RC) {
 			}
 		}
 	}
+}
+
+// ---- C16.R5 an integer decoder is built for a type of the kind it stores ----
+
+// newIntDecoder/newUintDecoder take the range test from typ.Kind() and the store from the closure
+// (`*(*uint8)(p) = uint8(v)`). The two agree only if the type handed in has the kind the closure
+// stores. For every function that passes a type and such a closure to a constructor, the kind of the
+// type argument at each of its call sites is derived from the guards around the call (the clause of
+// a `switch t.Kind()`, a conjunct `t.Kind() == reflect.K`), through parameters to all callers.
+type kindFlow struct {
+	p     *core.Program
+	calls map[*types.Func][]kindCallSite
+}
+
+type kindCallSite struct {
+	fd   *ast.FuncDecl
+	call *ast.CallExpr
+}
+
+func newKindFlow(p *core.Program, pkg string) *kindFlow {
+	kf := &kindFlow{p: p, calls: map[*types.Func][]kindCallSite{}}
+	for _, fd := range p.Funcs(pkg) {
+		if fd.Body == nil {
+			continue
+		}
+		info := p.Info(fd)
+		fd := fd
+		ast.Inspect(fd.Body, func(m ast.Node) bool {
+			if c, ok := m.(*ast.CallExpr); ok {
+				if f := core.Callee(info, c); f != nil {
+					kf.calls[f] = append(kf.calls[f], kindCallSite{fd, c})
+				}
+			}
+			return true
+		})
+	}
+	return kf
+}
+
+// kindsAt returns the set of reflect kinds e can have at node `at` inside fd; ok=false if unknown.
+func (kf *kindFlow) kindsAt(fd *ast.FuncDecl, e ast.Expr, at ast.Node, depth int) (map[string]bool, bool) {
+	info := kf.p.Info(fd)
+	obj := core.ObjOf(info, e)
+	if obj == nil || depth > 5 {
+		return nil, false
+	}
+	isKindOf := func(x ast.Expr) bool {
+		c, ok := core.Unparen(x).(*ast.CallExpr)
+		if !ok {
+			return false
+		}
+		sel, ok := core.Unparen(c.Fun).(*ast.SelectorExpr)
+		return ok && sel.Sel.Name == "Kind" && core.ObjOf(info, sel.X) == obj
+	}
+	kindConst := func(x ast.Expr) (string, bool) {
+		if v, ok := core.ConstInt(info, x); ok {
+			if tv, has := info.Types[x]; has && strings.HasSuffix(tv.Type.String(), "reflect.Kind") {
+				return reflectKinds[int(v)], true
+			}
+		}
+		return "", false
+	}
+	var conj func(x ast.Expr) []ast.Expr
+	conj = func(x ast.Expr) []ast.Expr {
+		if be, ok := core.Unparen(x).(*ast.BinaryExpr); ok && be.Op == token.LAND {
+			return append(conj(be.X), conj(be.Y)...)
+		}
+		return []ast.Expr{x}
+	}
+	path := core.PathTo(fd.Body, at)
+	for i := len(path) - 1; i >= 0; i-- {
+		switch x := path[i].(type) {
+		case *ast.CaseClause:
+			if i >= 2 {
+				if sw, ok := path[i-2].(*ast.SwitchStmt); ok && sw.Tag != nil && isKindOf(sw.Tag) && len(x.List) > 0 {
+					out := map[string]bool{}
+					for _, l := range x.List {
+						if k, ok := kindConst(l); ok {
+							out[k] = true
+						}
+					}
+					if len(out) > 0 {
+						return out, true
+					}
+				}
+			}
+		case *ast.IfStmt:
+			if i+1 < len(path) && path[i+1] == ast.Node(x.Body) {
+				for _, cj := range conj(x.Cond) {
+					if be, ok := core.Unparen(cj).(*ast.BinaryExpr); ok && be.Op == token.EQL && isKindOf(be.X) {
+						if k, ok := kindConst(be.Y); ok {
+							return map[string]bool{k: true}, true
+						}
+					}
+				}
+			}
+		}
+	}
+	// a parameter: the union over all call sites
+	if v, isVar := obj.(*types.Var); isVar {
+		fo, _ := info.Defs[fd.Name].(*types.Func)
+		if fo != nil {
+			sig := fo.Type().(*types.Signature)
+			for pi := 0; pi < sig.Params().Len(); pi++ {
+				if sig.Params().At(pi) != v {
+					continue
+				}
+				sites := kf.calls[fo]
+				if len(sites) == 0 {
+					return nil, false
+				}
+				out := map[string]bool{}
+				for _, s := range sites {
+					if pi >= len(s.call.Args) {
+						return nil, false
+					}
+					ks, ok := kf.kindsAt(s.fd, s.call.Args[pi], s.call, depth+1)
+					if !ok {
+						return nil, false
+					}
+					for k := range ks {
+						out[k] = true
+					}
+				}
+				return out, true
+			}
+		}
+	}
+	return nil, false
+}
+
+func c16r5(rc *core.RC) {
+	p := rc.P
+	kf := newKindFlow(p, "decoder")
+	n := 0
+	for _, fd := range p.Funcs("decoder") {
+		if fd.Body == nil || fd.Recv != nil {
+			continue
+		}
+		info := p.Info(fd)
+		// fd hands its own type parameter and a storing closure to newIntDecoder/newUintDecoder
+		var stored types.Type
+		var typArg ast.Expr
+		ast.Inspect(fd.Body, func(m ast.Node) bool {
+			c, ok := m.(*ast.CallExpr)
+			if !ok {
+				return true
+			}
+			if name := core.CalleeName(info, c); name != "decoder.newIntDecoder" && name != "decoder.newUintDecoder" {
+				return true
+			}
+			if len(c.Args) < 4 {
+				return true
+			}
+			lit, ok := core.Unparen(c.Args[3]).(*ast.FuncLit)
+			if !ok {
+				return true
+			}
+			typArg = c.Args[0]
+			ast.Inspect(lit.Body, func(x ast.Node) bool {
+				if as, ok := x.(*ast.AssignStmt); ok && len(as.Lhs) == 1 {
+					if st, isStar := core.Unparen(as.Lhs[0]).(*ast.StarExpr); isStar {
+						if tv, has := info.Types[st]; has {
+							stored = tv.Type
+						}
+					}
+				}
+				return true
+			})
+			return true
+		})
+		if stored == nil || typArg == nil {
+			continue
+		}
+		sb, isBasic := stored.Underlying().(*types.Basic)
+		if !isBasic {
+			continue
+		}
+		fo, _ := info.Defs[fd.Name].(*types.Func)
+		pobj := core.ObjOf(info, typArg)
+		if fo == nil || pobj == nil {
+			continue
+		}
+		fn := p.FuncName(fd)
+		rc.Touch(fn)
+		sizes := p.Pkg("decoder").TypesSizes
+		for k, site := range kf.calls[fo] {
+			n++
+			rc.CallSites++
+			key := fmt.Sprintf("%s/call#%d in %s kind-of-type-argument", fn, k+1, p.FuncName(site.fd))
+			// which argument carries the type
+			sig := fo.Type().(*types.Signature)
+			ai := -1
+			for i := 0; i < sig.Params().Len(); i++ {
+				if sig.Params().At(i) == pobj {
+					ai = i
+				}
+			}
+			if ai < 0 || ai >= len(site.call.Args) {
+				rc.Unknown(key, site.call.Pos(), "the type handed to the constructor is not a parameter of %s", fn)
+				continue
+			}
+			ks, ok := kf.kindsAt(site.fd, site.call.Args[ai], site.call, 0)
+			if !ok {
+				rc.Unknown(key, site.call.Pos(), "the kind of the type argument %s could not be derived from the guards around the call and its callers", core.Src(p.Fset, site.call.Args[ai]))
+				continue
+			}
+			good := len(ks) > 0
+			var names []string
+			for kname := range ks {
+				names = append(names, kname)
+				kb := basicOfKind(kname)
+				if kb == nil || sizes.Sizeof(kb) != sizes.Sizeof(sb) || (kb.Info()&types.IsUnsigned != 0) != (sb.Info()&types.IsUnsigned != 0) {
+					good = false
+				}
+			}
+			sort.Strings(names)
+			rc.Check(good, key, site.call.Pos(), "%s stores a %s; the type it is called with has kind %s (the range test is chosen by that kind)", fn, sb.Name(), strings.Join(names, "/"))
+		}
+	}
+	if n < 11 {
+		rc.Unknown("decoder/integer-decoder-constructions", token.NoPos, "found %d call sites of integer decoder constructors (12 confirmed)", n)
+	}
+}
+
+func basicOfKind(k string) *types.Basic {
+	m := map[string]types.BasicKind{"Int": types.Int, "Int8": types.Int8, "Int16": types.Int16, "Int32": types.Int32, "Int64": types.Int64,
+		"Uint": types.Uint, "Uint8": types.Uint8, "Uint16": types.Uint16, "Uint32": types.Uint32, "Uint64": types.Uint64, "Uintptr": types.Uintptr}
+	if bk, ok := m[k]; ok {
+		return types.Typ[bk]
+	}
+	return nil
 }
